@@ -3,10 +3,12 @@
 // Drives the real STIR API on generated geometries:
 //   TrivialBinNormalisation, BinNormalisationFromProjData (non-TOF factors with non-TOF/TOF data, TOF factors with TOF
 //   data, factors with more segments than the data), BinNormalisationFromAttenuationImage (ray tracing matrix forward
-//   projector with several symmetry settings), BinNormalisationPETFromComponents (crystal efficiencies, geometric and
-//   block factors), ChainedBinNormalisation (nested), the BinNormalisation base-class defaults and
-//   BinNormalisationWithCalibration through two table-driven subclasses defined here;
-//   set_up, then apply/undo on RelatedViewgrams for several symmetry groupings and on whole ProjData objects.
+//   projector with several symmetry settings; its default projector), BinNormalisationPETFromComponents (crystal
+//   efficiencies, geometric and block factors; tables expanded by the library, and tables built by hand; scanners with
+//   several blocks per bucket), ChainedBinNormalisation (nested, null members, partial application), the BinNormalisation
+//   base-class defaults and BinNormalisationWithCalibration through two table-driven subclasses defined here;
+//   set_up, then apply/undo on RelatedViewgrams for several symmetry groupings and on whole ProjData objects;
+//   set_up refusals (TOF / mashed / compressed data) and the check of the set-up state on use, for every class.
 // Usage: c13_binnorm <seed> <quick|thorough> <opsfile> <implfile>
 // ops/impl: the line protocol answered by lean/Driver/C13.lean;  <implfile>.oracle: the property's own statement
 // evaluated on the implementation (all bins).
@@ -103,12 +105,14 @@ public:
 // ---------------------------------------------------------------- geometry helpers
 
 static shared_ptr<Scanner>
-block_scanner(int N, int R, int trans_per_block, int axial_per_block, int max_tof_bins)
+block_scanner(int N, int R, int trans_per_block, int axial_per_block, int max_tof_bins, int axial_blocks_per_bucket = 1,
+              int trans_blocks_per_bucket = 1)
 {
   const float ring_radius = 100.F + N / 4.F;
   return shared_ptr<Scanner>(new Scanner(Scanner::User_defined_scanner, std::string("verif_scanner"), N, R,
                                          N / 2 - 1 > 0 ? N / 2 - 1 : 1, N / 2 - 1 > 0 ? N / 2 - 1 : 1, ring_radius, 5.F, 4.F, 2.F, 0.F,
-                                         /*num_axial_blocks_per_bucket*/ 1, /*num_transaxial_blocks_per_bucket*/ 1, axial_per_block,
+                                         /*num_axial_blocks_per_bucket*/ axial_blocks_per_bucket,
+                                         /*num_transaxial_blocks_per_bucket*/ trans_blocks_per_bucket, axial_per_block,
                                          trans_per_block, 1, 1, 1, 0.1F, 511.F, static_cast<short>(max_tof_bins),
                                          max_tof_bins > 0 ? 100.F : -1.F, max_tof_bins > 0 ? 400.F : -1.F, "Cylindrical"));
 }
@@ -262,6 +266,40 @@ run_route(const BinNormalisation& n, const Route& r, const Geom& g, PD& d, bool 
   return true;
 }
 
+// the same for any pair of functions (related viewgrams / whole data); `sym` is used for the related-viewgrams loop only
+static bool
+run_route_fn(const std::function<void(RelatedViewgrams<float>&)>& on_rv, const std::function<void(ProjData&)>& on_whole, bool whole,
+             const shared_ptr<DataSymmetriesForViewSegmentNumbers>& sym, const Geom& g, PD& d)
+{
+  try
+    {
+      if (whole)
+        on_whole(d);
+      else
+        {
+          const ProjDataInfo& p = *g.pdi;
+          for (int s = p.get_min_segment_num(); s <= p.get_max_segment_num(); ++s)
+            for (int v = p.get_min_view_num(); v <= p.get_max_view_num(); ++v)
+              {
+                const ViewSegmentNumbers vs(v, s);
+                if (!sym->is_basic(vs))
+                  continue;
+                for (int k = p.get_min_tof_pos_num(); k <= p.get_max_tof_pos_num(); ++k)
+                  {
+                    RelatedViewgrams<float> rv = d.get_related_viewgrams(vs, sym, false, k);
+                    on_rv(rv);
+                    d.set_related_viewgrams(rv);
+                  }
+              }
+        }
+    }
+  catch (...)
+    {
+      return false;
+    }
+  return true;
+}
+
 // ---------------------------------------------------------------- normalisation cases
 
 struct Case
@@ -275,6 +313,8 @@ struct Case
   std::vector<float> acf;              // for attenuation: independently computed exp(line integral), per bin
   std::vector<float> stored_factor;    // for FromProjData: the stored factor each bin must be multiplied with by apply
   bool is_components = false;
+  bool is_chain = false;
+  std::vector<float> hand_eff;         // for components built by hand: the expected efficiency per bin
   // measured
   std::vector<std::vector<float>> F;   // per route: efficiency factor measured from undo
 };
@@ -481,14 +521,31 @@ struct Runner
     return k;
   }
 
-  // attenuation image + ray tracing matrix with symmetry flags `f`
-  int add_atten(int f, float zoom, int nxy)
+  // attenuation image + ray tracing matrix with symmetry flags `f`; or (default_projector) no projector given: the class
+  // then uses ForwardProjectorByBinUsingRayTracing, whose symmetries are DataSymmetriesForBins_PET_CartesianGrid with
+  // everything enabled.  In both cases the rows sent to the model and used by the oracle come from a separate
+  // ProjMatrixByBinUsingRayTracing object (one ray per bin), and the line integrals are summed here.
+  int add_atten(int f, float zoom, int nxy, bool default_projector = false)
   {
     Case c;
-    c.kind = "atten" + std::to_string(f);
+    c.kind = default_projector ? std::string("attenDefaultProjector") : "atten" + std::to_string(f);
     shared_ptr<VoxelsOnCartesianGrid<float>> mu = vh::make_image(*g.pdi, zoom, nxy, -1);
     for (auto it = mu->begin_all(); it != mu->end_all(); ++it)
       *it = rng.range(0, 5) == 0 ? 0.F : rnd(0.02F, 0.45F); // cm^-1
+    if (default_projector)
+      {
+        // The expectation comes from another projector implementation (the ray tracing MATRIX).  The two differ in which
+        // partially covered voxels at the edge of the cylindrical field of view they include (and the matrix rows there also
+        // depend on the symmetry settings: sum of the row of bin (0, view 60 degrees, 0, 0) is 6 computed directly, 8.08
+        // through the 90-degree symmetry, 7x7 image).  That is the business of properties C03/C04; here the attenuation image is
+        // simply empty near the edge, as real attenuation images are.
+        const double keep = (nxy - 1) / 2. - 1.;
+        for (int z = mu->get_min_index(); z <= mu->get_max_index(); ++z)
+          for (int y = (*mu)[z].get_min_index(); y <= (*mu)[z].get_max_index(); ++y)
+            for (int x = (*mu)[z][y].get_min_index(); x <= (*mu)[z][y].get_max_index(); ++x)
+              if (std::sqrt(static_cast<double>(x) * x + static_cast<double>(y) * y) > keep)
+                (*mu)[z][y][x] = 0.F;
+      }
     auto make_matrix = [&](int flags, bool swap_s, bool shift_z) {
       shared_ptr<ProjMatrixByBinUsingRayTracing> pm(new ProjMatrixByBinUsingRayTracing);
       pm->set_do_symmetry_90degrees_min_phi(flags & 1);
@@ -500,9 +557,14 @@ struct Runner
     };
     const bool swap_s = rng.coin(), shift_z = rng.coin();
     shared_ptr<ProjMatrixByBinUsingRayTracing> pm = make_matrix(f, swap_s, shift_z);
-    shared_ptr<ForwardProjectorByBin> fwd(new ForwardProjectorByBinUsingProjMatrixByBin(pm));
+    shared_ptr<ForwardProjectorByBin> fwd;
+    if (!default_projector)
+      fwd.reset(new ForwardProjectorByBinUsingProjMatrixByBin(pm));
     shared_ptr<const DiscretisedDensity<3, float>> mu_c(mu);
-    c.norm.reset(new BinNormalisationFromAttenuationImage(mu_c, fwd));
+    if (default_projector)
+      c.norm.reset(new BinNormalisationFromAttenuationImage(mu_c));
+    else
+      c.norm.reset(new BinNormalisationFromAttenuationImage(mu_c, fwd));
     // (the class must be set up before the projector's symmetries exist: routes are filled in by run_case)
     // explicit rows: a second matrix object with the same settings (that rows do not depend on the symmetry settings is
     // property C03, not this one), cache off; the line integrals are summed here, not by a projector
@@ -536,10 +598,19 @@ struct Runner
           cc.acf.push_back(static_cast<float>(std::exp(integral)));
         }
     op("norm " + cc.id + " atten " + vh::hex(vx) + " r" + cc.id, "ok");
-    atten_fwd[k] = fwd;
+    if (default_projector)
+      {
+        shared_ptr<ProjDataInfo> pdi = g.pdi;
+        atten_sym[k] = [pdi, mu]() {
+          return shared_ptr<DataSymmetriesForViewSegmentNumbers>(new DataSymmetriesForBins_PET_CartesianGrid(pdi, mu));
+        };
+      }
+    else
+      atten_sym[k] = [fwd]() { return shared_ptr<DataSymmetriesForViewSegmentNumbers>(fwd->get_symmetries_used()->clone()); };
     return k;
   }
-  std::map<int, shared_ptr<ForwardProjectorByBin>> atten_fwd;
+  // symmetries of the projector inside an attenuation object (available after set_up)
+  std::map<int, std::function<shared_ptr<DataSymmetriesForViewSegmentNumbers>()>> atten_sym;
 
   // components: which = bit0 efficiencies, bit1 geo, bit2 block; mode 0 random, 1 all exactly 1, 2 within 5e-5 of 1, 3 efficiencies with zeros
   int add_components(int which, int mode)
@@ -672,27 +743,206 @@ struct Runner
     return k;
   }
 
+  // components with the expected per-bin efficiency built BY HAND (no call of apply_geo_norm / apply_block_norm /
+  // apply_efficiencies / make_fan_data on the expectation side):
+  //   efficiency(bin) = e[ra][a] * e[rb][b]  *  geo(class of the crystal pair)  *  block(unordered pair of blocks)
+  // for the crystal pair (ra,a),(rb,b) of the bin (ProjDataInfoCylindricalNoArcCorr::get_det_pair_for_bin, property C01),
+  // inside the fan |tangential_pos| <= min(max_tang, -min_tang), and 0 outside.
+  // The geometric factors are one value per symmetry class of crystal pairs: classes are computed here by union-find over
+  // ALL ordered crystal pairs of the scanner under (i) exchange of the two crystals, (ii) rotation by one symmetry unit
+  // transaxially, (iii) shift by one symmetry unit axially, (iv) transaxial mirror d -> N-1-d, (v) axial mirror r -> R-1-r,
+  // where the unit is a bucket if the scanner has more than one bucket in that direction, otherwise a block
+  // (BinNormalisationPETFromComponents::allocate, do_symmetry_per_block=false).  Every cell of the GeoData3D array gets the
+  // value of the class of its index, so the result cannot depend on which cell of a class the library reads.
+  // The block factors are one value per unordered pair of blocks.
+  int add_components_hand(int which, const std::string& label)
+  {
+    Case c;
+    c.kind = "comphand" + std::to_string(which) + label;
+    c.is_components = true;
+    const Scanner& sc = *g.scanner;
+    const int N = sc.get_num_detectors_per_ring(), R = sc.get_num_rings();
+    const int tpb = sc.get_num_transaxial_crystals_per_block(), apb = sc.get_num_axial_crystals_per_block();
+    const int Ut = sc.get_num_transaxial_buckets() > 1 ? tpb * sc.get_num_transaxial_blocks_per_bucket() : tpb;
+    const int Ua = sc.get_num_axial_buckets() > 1 ? apb * sc.get_num_axial_blocks_per_bucket() : apb;
+    shared_ptr<BinNormalisationPETFromComponents> n(new BinNormalisationPETFromComponents);
+    n->allocate(g.pdi, which & 1, which & 2, which & 4);
+    // ---- classes of crystal pairs
+    const int M = R * N;
+    std::vector<int> parent(static_cast<std::size_t>(M) * M);
+    for (std::size_t i = 0; i < parent.size(); ++i)
+      parent[i] = static_cast<int>(i);
+    std::function<int(int)> find = [&](int x) {
+      while (parent[x] != x)
+        x = parent[x] = parent[parent[x]];
+      return x;
+    };
+    auto id = [&](int ra, int a, int rb, int b) { return (ra * N + a) * M + (rb * N + b); };
+    auto unite = [&](int x, int y) {
+      x = find(x);
+      y = find(y);
+      if (x != y)
+        parent[std::max(x, y)] = std::min(x, y);
+    };
+    for (int ra = 0; ra < R; ++ra)
+      for (int a = 0; a < N; ++a)
+        for (int rb = 0; rb < R; ++rb)
+          for (int b = 0; b < N; ++b)
+            {
+              const int x = id(ra, a, rb, b);
+              unite(x, id(rb, b, ra, a));
+              unite(x, id(ra, (a + Ut) % N, rb, (b + Ut) % N));
+              if (ra + Ua < R && rb + Ua < R)
+                unite(x, id(ra + Ua, a, rb + Ua, b));
+              unite(x, id(ra, N - 1 - a, rb, N - 1 - b));
+              unite(x, id(R - 1 - ra, a, R - 1 - rb, b));
+            }
+    std::vector<float> class_value(parent.size());
+    for (float& v : class_value)
+      v = rnd(0.5F, 2.F);
+    auto geo_of = [&](int ra, int a, int rb, int b) { return class_value[find(id(ra, a % N, rb, b % N))]; };
+    // ---- one block factor per unordered pair of blocks
+    std::map<std::pair<int, int>, float> block_value;
+    const int ntb = N / tpb;
+    auto block_of = [&](int ra, int a, int rb, int b) -> float& {
+      const int x = (ra / apb) * ntb + (a % N) / tpb, y = (rb / apb) * ntb + (b % N) / tpb;
+      const std::pair<int, int> key(std::min(x, y), std::max(x, y));
+      auto it = block_value.find(key);
+      if (it == block_value.end())
+        it = block_value.insert(std::make_pair(key, rnd(0.5F, 2.F))).first;
+      return it->second;
+    };
+    float emin = 1, emax = 1, gmin = 1, gmax = 1, bmin = 1, bmax = 1;
+    if (which & 1)
+      {
+        DetectorEfficiencies& e = n->crystal_efficiencies();
+        for (int r = e.get_min_index(); r <= e.get_max_index(); ++r)
+          for (int d = e[r].get_min_index(); d <= e[r].get_max_index(); ++d)
+            e[r][d] = rnd(0.5F, 2.F);
+        emin = e.find_min();
+        emax = e.find_max();
+      }
+    if (which & 2)
+      {
+        GeoData3D& geo = n->geometric_factors();
+        Array<4, float>& arr = geo;
+        for (int ra = arr.get_min_index(); ra <= arr.get_max_index(); ++ra)
+          for (int a = arr[ra].get_min_index(); a <= arr[ra].get_max_index(); ++a)
+            for (int rb = arr[ra][a].get_min_index(); rb <= arr[ra][a].get_max_index(); ++rb)
+              for (int b = arr[ra][a][rb].get_min_index(); b <= arr[ra][a][rb].get_max_index(); ++b)
+                arr[ra][a][rb][b] = geo_of(ra, a, rb, b);
+        gmin = geo.find_min();
+        gmax = geo.find_max();
+      }
+    if (which & 4)
+      {
+        BlockData3D& bd = n->block_factors();
+        // (block indices; the accessor maps both orders of a pair of blocks in the same ring to different cells: both are set)
+        for (int ra = bd.get_min_ra(); ra <= bd.get_max_ra(); ++ra)
+          for (int a = bd.get_min_a(); a <= bd.get_max_a(); ++a)
+            for (int rb = std::max(ra, bd.get_min_rb(ra)); rb <= bd.get_max_rb(ra); ++rb)
+              for (int b = bd.get_min_b(a); b <= bd.get_max_b(a); ++b)
+                bd(ra, a, rb, b) = block_of(ra * apb, a * tpb, rb * apb, (b % ntb) * tpb);
+        bmin = bd.find_min();
+        bmax = bd.find_max();
+      }
+    c.norm = n;
+    c.routes = generic_routes();
+    c.has_small_eff = true; // bins outside the fan
+    c.positive_inputs = true;
+    const int k = add(c);
+    const std::string cid = cases[k].id;
+    // ---- hand-made per-bin tables and expected efficiency
+    PD fan(g.exam, g.pdi), ea(g.exam, g.pdi), eb(g.exam, g.pdi), geo_t(g.exam, g.pdi), blk_t(g.exam, g.pdi);
+    auto pc = dynamic_cast<const ProjDataInfoCylindricalNoArcCorr*>(g.pdi.get());
+    const int half_fan = std::min(g.tmax, -g.tmin);
+    Case& cc = cases[k];
+    cc.hand_eff.reserve(g.nbins());
+    for (const Row& r : g.rows)
+      for (int t = g.tmin; t <= g.tmax; ++t)
+        {
+          Bin b(r.seg, r.view, r.ax, t, r.tof);
+          int a = 0, ra = 0, bb = 0, rb = 0;
+          pc->get_det_pair_for_bin(a, ra, bb, rb, b);
+          const bool in_fan = std::abs(t) <= half_fan;
+          double expected = in_fan ? 1. : 0.;
+          auto put = [&](PD& d, float v) {
+            Bin x(b);
+            x.set_bin_value(v);
+            d.set_bin_value(x);
+          };
+          put(fan, in_fan ? 1.F : 0.F);
+          if (which & 1)
+            {
+              const DetectorEfficiencies& e = n->crystal_efficiencies();
+              put(ea, e[ra][a]);
+              put(eb, e[rb][bb]);
+              expected *= static_cast<double>(e[ra][a]) * e[rb][bb];
+            }
+          if (which & 2)
+            {
+              const float v = geo_of(ra, a, rb, bb);
+              put(geo_t, v);
+              expected *= v;
+            }
+          if (which & 4)
+            {
+              const float v = block_of(ra, a, rb, bb);
+              put(blk_t, v);
+              expected *= v;
+            }
+          cc.hand_eff.push_back(static_cast<float>(expected));
+        }
+    send_table("fan" + cid, fan);
+    if (which & 1)
+      {
+        send_table("ea" + cid, ea);
+        send_table("eb" + cid, eb);
+      }
+    if (which & 2)
+      send_table("geo" + cid, geo_t);
+    if (which & 4)
+      send_table("blk" + cid, blk_t);
+    std::ostringstream s;
+    s << "norm " << cid << " comp fan" << cid << " " << ((which & 1) ? "ea" + cid : std::string("-")) << " "
+      << ((which & 1) ? "eb" + cid : std::string("-")) << " " << ((which & 2) ? "geo" + cid : std::string("-")) << " "
+      << ((which & 4) ? "blk" + cid : std::string("-")) << " " << vh::hex(emin) << " " << vh::hex(emax) << " " << vh::hex(gmin) << " "
+      << vh::hex(gmax) << " " << vh::hex(bmin) << " " << vh::hex(bmax);
+    op(s.str(), "ok");
+    return k;
+  }
+
+  // i or j may be -1: a null member
   int add_chain(int i, int j)
   {
     Case c;
-    c.kind = "chain(" + cases[i].kind + "," + cases[j].kind + ")";
+    auto kind_of = [&](int m) { return m < 0 ? std::string("null") : cases[m].kind; };
+    c.kind = "chain(" + kind_of(i) + "," + kind_of(j) + ")";
     ++g_checks;
     try
       {
-        if (cases[i].norm && cases[j].norm)
-          c.norm.reset(new ChainedBinNormalisation(cases[i].norm, cases[j].norm));
+        if ((i < 0 || cases[i].norm) && (j < 0 || cases[j].norm))
+          c.norm.reset(new ChainedBinNormalisation(i < 0 ? shared_ptr<BinNormalisation>() : cases[i].norm,
+                                                   j < 0 ? shared_ptr<BinNormalisation>() : cases[j].norm));
       }
     catch (...)
       {
         oracle_fail("ChainedBinNormalisation refused members of which at most one has a calibration factor: " + c.kind);
       }
     c.members = { i, j };
-    c.has_small_eff = cases[i].has_small_eff || cases[j].has_small_eff;
-    c.positive_inputs = cases[i].positive_inputs && cases[j].positive_inputs;
-    c.is_components = cases[i].is_components || cases[j].is_components; // bins outside the fan have efficiency 0
+    c.is_chain = true;
+    for (int m : c.members)
+      if (m >= 0)
+        {
+          c.has_small_eff = c.has_small_eff || cases[m].has_small_eff;
+          c.positive_inputs = c.positive_inputs && cases[m].positive_inputs;
+          c.is_components = c.is_components || cases[m].is_components; // bins outside the fan have efficiency 0
+        }
     c.routes = generic_routes(); // restricted in set_up_case if a member is an attenuation object
     const int k = add(c);
-    op("norm " + cases[k].id + " chain " + cases[i].id + " " + cases[j].id, "ok");
+    op("norm " + cases[k].id + " chain " + (i < 0 ? std::string("null") : cases[i].id) + " "
+           + (j < 0 ? std::string("null") : cases[j].id),
+       "ok");
     return k;
   }
 
@@ -710,10 +960,14 @@ struct Runner
   // attenuation objects only accept related viewgrams following the symmetries of their projector
   int find_atten(int k) const
   {
-    if (atten_fwd.count(k))
+    if (k < 0)
+      return -1;
+    if (atten_sym.count(k))
       return k;
     for (int m : cases[k].members)
       {
+        if (m < 0)
+          continue;
         const int a = find_atten(m);
         if (a >= 0)
           return a;
@@ -725,10 +979,147 @@ struct Runner
     const int a = find_atten(k);
     if (a < 0)
       return;
-    shared_ptr<DataSymmetriesForViewSegmentNumbers> s(atten_fwd[a]->get_symmetries_used()->clone());
+    shared_ptr<DataSymmetriesForViewSegmentNumbers> s = atten_sym[a]();
     routes.clear();
     routes.push_back(Route{ "rv:projector", false, s });
     routes.push_back(Route{ "whole:projector", true, s });
+  }
+
+
+  // ---- ChainedBinNormalisation: partial application (apply_only_first/second, undo_only_first/second, is_first/second_trivial)
+  // ops `apply1|apply2|undo1|undo2 <id> <route> ...` and `triv1|triv2 <id>`; oracle: the partial call does exactly what the
+  // member does on its own (a null member: nothing), first-then-second equals the whole chain.
+  void run_partial(int k, const std::vector<float>& chain_U1, const std::vector<float>& chain_A1)
+  {
+    Case& c = cases[k];
+    const ChainedBinNormalisation* chain = dynamic_cast<const ChainedBinNormalisation*>(c.norm.get());
+    if (!chain || c.members.size() != 2 || c.routes.empty())
+      return;
+    for (int which = 0; which < 2; ++which)
+      {
+        const int m = c.members[which];
+        std::string ans;
+        try
+          {
+            ans = (which == 0 ? chain->is_first_trivial() : chain->is_second_trivial()) ? "1" : "0";
+          }
+        catch (...)
+          {
+            ans = "err";
+          }
+        op("triv" + std::to_string(which + 1) + " " + c.id, ans);
+        ++g_checks;
+        std::string expected = "err";
+        if (m >= 0)
+          {
+            bool t = false;
+            try
+              {
+                t = cases[m].norm->is_trivial();
+              }
+            catch (...)
+              {}
+            expected = t ? "1" : "0";
+          }
+        if (ans != expected)
+          oracle_fail(std::string("is_") + (which ? "second" : "first") + "_trivial() of " + c.kind + " gives " + ans
+                      + " but the member on its own gives " + expected);
+      }
+    const Route& rv = c.routes[0];
+    for (int whole = 0; whole < 2; ++whole)
+      {
+        std::vector<float> after_first_apply, after_first_undo;
+        for (int which = 0; which < 2; ++which)
+          {
+            const int m = c.members[which];
+            // a whole-data call cannot pass symmetries: an attenuation member only accepts those of its projector
+            if (whole && find_atten(m) >= 0)
+              continue;
+            if (m >= 0 && cases[m].F.empty())
+              continue;
+            const std::string route = whole ? "whole:default" : rv.name;
+            const std::string tag = std::to_string(which + 1);
+            auto call = [&](bool do_apply, const std::vector<float>& in, std::vector<float>& res) {
+              PD work(g.exam, g.pdi);
+              fill_from(g, work, in);
+              const bool fine = run_route_fn(
+                  [&](RelatedViewgrams<float>& r) {
+                    if (do_apply)
+                      which == 0 ? chain->apply_only_first(r) : chain->apply_only_second(r);
+                    else
+                      which == 0 ? chain->undo_only_first(r) : chain->undo_only_second(r);
+                  },
+                  [&](ProjData& p) {
+                    if (do_apply)
+                      which == 0 ? chain->apply_only_first(p) : chain->apply_only_second(p);
+                    else
+                      which == 0 ? chain->undo_only_first(p) : chain->undo_only_second(p);
+                  },
+                  whole != 0, rv.sym, g, work);
+              res = flatten(g, work);
+              return fine;
+            };
+            std::vector<float> U1, A1;
+            ++g_checks;
+            if (!(call(false, d1, U1) && call(true, d1, A1)))
+              {
+                oracle_fail(std::string("apply/undo_only_") + (which ? "second" : "first") + " threw for " + c.kind + " route " + route);
+                continue;
+              }
+            Route named{ route, whole != 0, rv.sym };
+            send_result("undo" + tag, c, named, g, d1, U1);
+            send_result("apply" + tag, c, named, g, d1, A1);
+            int bad_u = -1, bad_a = -1, bad_null = -1, bad_cu = -1, bad_ca = -1;
+            const std::vector<float>* mF = m >= 0 ? &cases[m].F[0] : nullptr;
+            // composition first-then-second (related viewgrams only; needs both halves)
+            std::vector<float> CU, CA;
+            bool composed = false;
+            if (which == 0)
+              {
+                after_first_apply = A1;
+                after_first_undo = U1;
+              }
+            else if (!after_first_apply.empty())
+              composed = call(false, after_first_undo, CU) && call(true, after_first_apply, CA);
+            for (std::size_t i = 0; i < g.nbins(); ++i)
+              {
+                if (!mF)
+                  {
+                    if (U1[i] != d1[i] || A1[i] != d1[i])
+                      bad_null = static_cast<int>(i);
+                    continue;
+                  }
+                const double fm = (*mF)[i];
+                if (!close_rel(U1[i], static_cast<double>(d1[i]) * fm, 1e-5))
+                  bad_u = static_cast<int>(i);
+                if (fm >= 1.e-20 && !close_rel(static_cast<double>(A1[i]) * fm, d1[i], 1e-5))
+                  bad_a = static_cast<int>(i);
+              }
+            if (composed)
+              for (std::size_t i = 0; i < g.nbins(); ++i)
+                {
+                  if (!close_rel(CU[i], chain_U1[i], 1e-5))
+                    bad_cu = static_cast<int>(i);
+                  if (!(close_rel(CA[i], chain_A1[i], 1e-5) || (!std::isfinite(CA[i]) && !std::isfinite(chain_A1[i]))))
+                    bad_ca = static_cast<int>(i);
+                }
+            auto verdict = [&](int bad, const std::string& what) {
+              ++g_checks;
+              if (bad >= 0)
+                oracle_fail(what + ": " + c.kind + " route " + route + " " + bin_name(g, bad) + " d=" + vh::hex(d1[bad])
+                            + " undo_only=" + fmt(U1[bad]) + " apply_only=" + fmt(A1[bad]));
+            };
+            const std::string nm = which ? "second" : "first";
+            verdict(bad_u, "undo_only_" + nm + " does not multiply by the efficiency of that member alone");
+            verdict(bad_a, "apply_only_" + nm + " does not divide by the efficiency of that member alone");
+            verdict(bad_null, "apply/undo_only_" + nm + " with a null member changes the data");
+            if (composed)
+              {
+                verdict(bad_cu, "undo_only_first then undo_only_second differs from undo of the chain");
+                verdict(bad_ca, "apply_only_first then apply_only_second differs from apply of the chain");
+              }
+          }
+      }
   }
 
   // ---- run one case: set_up, all routes, correspondence lines and oracle
@@ -822,7 +1213,7 @@ struct Runner
         // ---------------- ORACLE (the property's statement on the implementation), all bins
         std::vector<float> F(g.nbins());
         int bad_lin = -1, bad_pos = -1, bad_eff = -1, bad_app = -1, bad_au = -1, bad_ua = -1, bad_triv = -1, bad_route = -1, bad_acf = -1,
-            bad_fpd = -1, bad_chain = -1;
+            bad_fpd = -1, bad_chain = -1, bad_hand = -1;
         bool triv_only_edge = true, pos_only_edge = true;
         const int half_fan = std::min(g.tmax, -g.tmin);
         for (std::size_t i = 0; i < g.nbins(); ++i)
@@ -878,11 +1269,18 @@ struct Runner
             // (10) FromProjData: apply multiplies by the stored factor (timing position 0 for non-TOF factors)
             if (!c.stored_factor.empty() && !close_rel(static_cast<double>(A1[i]), static_cast<double>(d1[i]) * c.stored_factor[i], 1e-5))
               bad_fpd = static_cast<int>(i);
-            // (6) a chain has the product of its members' efficiencies (members measured on their own, same grouping kind)
+            // (11) components: the factor is (product of the two crystal efficiencies) x (geometric factor of the class of
+            //      the crystal pair) x (block factor of the pair of blocks), all computed by hand (inside the fan)
+            if (!c.hand_eff.empty() && !outside_fan && !close_rel(f, c.hand_eff[i], 1e-5))
+              bad_hand = static_cast<int>(i);
+            // (6) a chain has the product of its members' efficiencies (members measured on their own, same grouping kind;
+            //     a null member counts as 1)
             if (c.members.size() == 2)
               {
-                const Case &m1 = cases[c.members[0]], &m2 = cases[c.members[1]];
-                if (!m1.F.empty() && !m2.F.empty() && !close_rel(f, static_cast<double>(m1.F[0][i]) * m2.F[0][i], 1e-5))
+                const int i1 = c.members[0], i2 = c.members[1];
+                const bool have1 = i1 < 0 || !cases[i1].F.empty(), have2 = i2 < 0 || !cases[i2].F.empty();
+                const double f1 = i1 < 0 ? 1. : (have1 ? cases[i1].F[0][i] : 0.), f2 = i2 < 0 ? 1. : (have2 ? cases[i2].F[0][i] : 0.);
+                if (have1 && have2 && !close_rel(f, f1 * f2, 1e-5))
                   bad_chain = static_cast<int>(i);
               }
             // (9) every way of calling (any symmetry grouping, related viewgrams or whole data) gives the same result
@@ -905,6 +1303,8 @@ struct Runner
         verdict(bad_acf, "attenuation correction factor is not exp(line integral of mu/10 over the LOR in mm)");
         verdict(bad_fpd, "BinNormalisationFromProjData::apply does not multiply by the stored factor");
         verdict(bad_chain, "chain efficiency is not the product of its members' efficiencies");
+        if (!c.hand_eff.empty())
+          verdict(bad_hand, "components efficiency is not crystal efficiencies x geometric factor of the pair's class x block factor");
         verdict(bad_route, "result depends on the symmetry grouping / viewgram-vs-whole-data call");
         const char* key = "components:even-number-of-tangential-positions:edge-bin-outside-fan-has-efficiency-0";
         const char* text
@@ -933,6 +1333,8 @@ struct Runner
             first_A1 = A1;
           }
       }
+    if (c.is_chain && !first_U1.empty())
+      run_partial(k, first_U1, first_A1);
   }
 };
 
@@ -977,6 +1379,120 @@ fpd_setup_case(Runner& R, const shared_ptr<ProjDataInfo>& factors_pdi, bool expe
   if (expect_known && ok != expected)
     oracle_fail(std::string("BinNormalisationFromProjData::set_up ") + (ok ? "accepted" : "rejected") + " a factor geometry that must be "
                 + (expected ? "accepted" : "rejected"));
+}
+
+
+// set_up decisions that are refusals by error(): the attenuation class on TOF data
+static void
+atten_setup_case(Runner& R)
+{
+  shared_ptr<VoxelsOnCartesianGrid<float>> mu = vh::make_image(*R.g.pdi, 1.F, 5, -1);
+  mu->fill(0.096F);
+  shared_ptr<const DiscretisedDensity<3, float>> mu_c(mu);
+  BinNormalisationFromAttenuationImage n(mu_c);
+  bool ok = false;
+  try
+    {
+      ok = n.set_up(R.g.exam, R.g.pdi) == Succeeded::yes;
+    }
+  catch (...)
+    {
+      ok = false;
+    }
+  op("setup atten " + std::to_string(R.g.pdi->get_num_tof_poss()), ok ? "ok" : "err");
+}
+
+// ... and the components class on TOF data, data with view mashing, data with axial compression
+static void
+comp_setup_case(Runner& R)
+{
+  BinNormalisationPETFromComponents n;
+  n.allocate(R.g.pdi, true, false, false);
+  n.crystal_efficiencies().fill(1.F);
+  bool ok = false;
+  try
+    {
+      ok = n.set_up(R.g.exam, R.g.pdi) == Succeeded::yes;
+    }
+  catch (...)
+    {
+      ok = false;
+    }
+  auto pc = dynamic_cast<const ProjDataInfoCylindrical*>(R.g.pdi.get());
+  std::ostringstream o;
+  o << "setup comp " << (R.g.pdi->is_tof_data() ? 1 : 0) << " " << (pc->get_view_mashing_factor() > 1 ? 1 : 0) << " "
+    << (pc->get_max_ring_difference(0) > 0 ? 1 : 0);
+  op(o.str(), ok ? "ok" : "err");
+}
+
+// ---------------------------------------------------------------- the set-up state is checked on use, for every class
+// `use2 rv <expr>` / `use2 whole <examEq> <expr>` with <expr> = N | T su ge | B su ge | C su ge <expr> <expr>
+struct UseObj
+{
+  shared_ptr<BinNormalisation> norm;
+  std::string expr; // filled by the caller for the data geometry at hand
+};
+
+static std::vector<float>
+flatten_any(PD& d)
+{
+  std::vector<float> v;
+  const ProjDataInfo& p = *d.get_proj_data_info_sptr();
+  for (const Row& r : rows_of(p))
+    for (int t = p.get_min_tangential_pos_num(); t <= p.get_max_tangential_pos_num(); ++t)
+      {
+        Bin b(r.seg, r.view, r.ax, t, r.tof);
+        v.push_back(d.get_bin_value(b));
+      }
+  return v;
+}
+
+// returns 1 accepted, 0 refused, -1 undo and apply disagree about it; values of undo then of apply appended to `vals`
+static int
+try_use(const BinNormalisation& n, const shared_ptr<ProjDataInfo>& data_pdi, const shared_ptr<ExamInfo>& data_exam, bool whole,
+        std::vector<float>& vals)
+{
+  int accepted[2] = { 0, 0 };
+  vals.clear();
+  for (int do_apply = 0; do_apply < 2; ++do_apply)
+    {
+      PD dd(data_exam, data_pdi);
+      int cnt = 0;
+      fill_gen(dd, [&]() { return 1.F + 0.25F * (cnt++ % 5); });
+      try
+        {
+          if (whole)
+            {
+              if (do_apply)
+                n.apply(dd);
+              else
+                n.undo(dd);
+            }
+          else
+            {
+              shared_ptr<DataSymmetriesForViewSegmentNumbers> triv(new TrivialDataSymmetriesForBins(data_pdi));
+              for (int s = data_pdi->get_min_segment_num(); s <= data_pdi->get_max_segment_num(); ++s)
+                for (int v = data_pdi->get_min_view_num(); v <= data_pdi->get_max_view_num(); ++v)
+                  for (int k = data_pdi->get_min_tof_pos_num(); k <= data_pdi->get_max_tof_pos_num(); ++k)
+                    {
+                      RelatedViewgrams<float> rv = dd.get_related_viewgrams(ViewSegmentNumbers(v, s), triv, false, k);
+                      if (do_apply)
+                        n.apply(rv);
+                      else
+                        n.undo(rv);
+                      dd.set_related_viewgrams(rv);
+                    }
+            }
+          accepted[do_apply] = 1;
+        }
+      catch (...)
+        {
+          accepted[do_apply] = 0;
+        }
+      const std::vector<float> f = flatten_any(dd);
+      vals.insert(vals.end(), f.begin(), f.end());
+    }
+  return accepted[0] == accepted[1] ? accepted[0] : -1;
 }
 
 int
@@ -1031,6 +1547,18 @@ main(int argc, char** argv)
           const int ch4 = R.add_chain(c7, ch1);          // three members, right nested
           const int ch5 = R.add_chain(cal, tab0);
           const int ch0 = R.add_empty_chain();
+          // a chain with one null member (either side), alone and nested
+          const int chn1 = R.add_chain(tab, -1);
+          const int chn2 = R.add_chain(-1, fpd);
+          R.add_chain(chn1, chn2);
+          R.add_chain(even ? -1 : at, even ? cal : -1);
+          // the attenuation class with its default projector (no projector given)
+          const int atd = R.add_atten(rng.range(0, 7), rng.coin() ? 0.8F : 1.25F, rng.range(6, 9), true);
+          R.add_chain(fpd, atd);
+          // components against the expectation built by hand
+          const int h7 = R.add_components_hand(7, "");
+          R.add_components_hand(rng.range(1, 6), "");
+          R.add_chain(h7, tab);
           (void)c1; (void)c5; (void)cz; (void)ct; (void)cn; (void)ch3; (void)ch4; (void)ch5; (void)ch0; (void)at2;
           for (std::size_t k = 0; k < R.cases.size(); ++k)
             R.run_case(static_cast<int>(k));
@@ -1085,6 +1613,8 @@ main(int argc, char** argv)
           for (std::size_t k = 0; k < R.cases.size(); ++k)
             R.run_case(static_cast<int>(k));
           // set_up decisions
+          atten_setup_case(R); // TOF data: refused
+          comp_setup_case(R);  // TOF data: refused
           fpd_setup_case(R, nontof, true, true);
           fpd_setup_case(R, pdi, true, true);
           {
@@ -1171,6 +1701,239 @@ main(int argc, char** argv)
         for (std::size_t k = 0; k < R2.cases.size(); ++k)
           R2.run_case(static_cast<int>(k));
         fpd_setup_case(R2, big, true, true); // more segments than the data: allowed
+        comp_setup_case(R2);                 // axial compression (and possibly view mashing): refused
+      }
+
+      // ------------------------------------------------------------------ H: scanners with several blocks per bucket
+      // (the symmetry unit of the geometric factors is then a bucket); components against the expectation built by hand
+      for (int variant = 0; variant < (thorough ? 3 : 2); ++variant)
+        {
+          Runner R(rng, thorough);
+          int tpb, tbpb, ntbuckets, N;
+          do
+            {
+              tpb = rng.coin() ? 2 : 4;
+              tbpb = variant == 0 ? 2 : rng.range(1, 3);
+              ntbuckets = variant == 0 ? rng.range(2, 4) : rng.range(1, 4);
+              N = tpb * tbpb * ntbuckets;
+            // (an even number of blocks, at least 4: with 2 blocks the fan of a crystal contains crystals of its own block, for
+            //  which BlockData3D has no cell: known finding of property C20, block-norm:fan-holds-two-crystals-of-one-block)
+          } while (N < 8 || N > 32 || (N / tpb) % 2 != 0 || N / tpb < 4);
+          static const int axial[][3] = { { 1, 2, 2 }, { 1, 1, 2 }, { 2, 1, 1 }, { 1, 2, 1 }, { 2, 2, 1 }, { 2, 1, 2 }, { 1, 1, 3 } };
+          const int* ax = axial[variant == 0 ? rng.range(0, 1) : rng.range(0, 6)];
+          const int apb = ax[0], abpb = ax[1], Rr = ax[0] * ax[1] * ax[2];
+          int nt = std::max(3, std::min(N / 2 - 1, 2 * rng.range(1, 3) + 1));
+          if (variant == 1 && rng.coin())
+            nt = std::max(2, nt - 1);
+          shared_ptr<Scanner> sc = block_scanner(N, Rr, tpb, apb, -1, abpb, tbpb);
+          shared_ptr<ProjDataInfo> pdi = vh::make_pdi(sc, 1, Rr - 1, N / 2, nt, false, 0);
+          std::ostringstream d;
+          d << "nonTOF N=" << N << " R=" << Rr << " span=1 views=" << N / 2 << " tang=" << nt << " blocks=" << tpb << "x" << apb
+            << " blocks-per-bucket=" << tbpb << "x" << abpb << " buckets=" << sc->get_num_transaxial_buckets() << "x"
+            << sc->get_num_axial_buckets();
+          R.set_geometry(sc, pdi, d.str());
+          const int tab = R.add_table(false);
+          const int h7 = R.add_components_hand(7, "bucket");
+          R.add_components_hand(2, "bucket");
+          R.add_components_hand(rng.coin() ? 4 : 5, "bucket");
+          const int c7 = R.add_components(7, 0);
+          R.add_chain(h7, tab);
+          R.add_chain(-1, c7);
+          for (std::size_t k = 0; k < R.cases.size(); ++k)
+            R.run_case(static_cast<int>(k));
+          comp_setup_case(R);
+        }
+      // ------------------------------------------------------------------ G: the set-up state is checked on use, every class
+      {
+        Runner R(rng, thorough);
+        const int tpb = 2;
+        const int N = tpb * 2 * rng.range(2, 3);
+        const int Rr = rng.range(2, 3);
+        const int nt = 3;
+        shared_ptr<Scanner> sc = block_scanner(N, Rr, tpb, 1, 5);
+        shared_ptr<ProjDataInfo> big = vh::make_pdi(sc, 1, Rr - 1, N / 2, nt, false, 0);
+        shared_ptr<ProjDataInfo> small = vh::make_pdi(sc, 1, 0, N / 2, nt, false, 0);
+        shared_ptr<ProjDataInfo> tofbig = vh::make_pdi(sc, 1, Rr - 1, N / 2, nt, false, 1);
+        std::ostringstream d;
+        d << "use-checks N=" << N << " R=" << Rr << " span=1 views=" << N / 2 << " tang=" << nt << " big=" << big->get_num_segments()
+          << " segments, small=1 segment, tof=" << tofbig->get_num_tof_poss() << " positions";
+        R.set_geometry(sc, big, d.str());
+        shared_ptr<ExamInfo> exam = R.g.exam;
+        // both with exactly one time frame (TimeFrameDefinitions::operator== only looks at the frames of its left operand and
+        // throws std::out_of_range if the right one has fewer: comparing lists of different length is not what is tested here)
+        {
+          TimeFrameDefinitions tf;
+          tf.set_num_time_frames(1);
+          tf.set_time_frame(1, 0., 10.);
+          exam->set_time_frame_definitions(tf);
+        }
+        shared_ptr<ExamInfo> other_exam(new ExamInfo(*exam));
+        {
+          TimeFrameDefinitions tf;
+          tf.set_num_time_frames(1);
+          tf.set_time_frame(1, 0., 20.);
+          other_exam->set_time_frame_definitions(tf);
+        }
+        shared_ptr<PD> factors = R.random_positive_pd(big, 0.5F, 2.F);
+        shared_ptr<PD> table = R.random_positive_pd(big, 0.5F, 2.F);
+        shared_ptr<VoxelsOnCartesianGrid<float>> mu = vh::make_image(*big, 1.F, 5, -1);
+        for (auto it = mu->begin_all(); it != mu->end_all(); ++it)
+          *it = R.rnd(0.02F, 0.3F);
+        std::vector<float> effs(static_cast<std::size_t>(N) * Rr);
+        for (float& e : effs)
+          e = R.rnd(0.5F, 2.F);
+        typedef std::function<shared_ptr<BinNormalisation>()> Factory;
+        Factory make_fpd = [&]() { return shared_ptr<BinNormalisation>(new BinNormalisationFromProjData(factors)); };
+        Factory make_table = [&]() { return shared_ptr<BinNormalisation>(new TableNorm(table)); };
+        Factory make_atten = [&]() {
+          shared_ptr<ProjMatrixByBinUsingRayTracing> pm(new ProjMatrixByBinUsingRayTracing);
+          pm->set_do_symmetry_90degrees_min_phi(false);
+          pm->set_do_symmetry_180degrees_min_phi(false);
+          pm->set_do_symmetry_swap_segment(false);
+          pm->set_do_symmetry_swap_s(false);
+          pm->set_do_symmetry_shift_z(false);
+          shared_ptr<ForwardProjectorByBin> fwd(new ForwardProjectorByBinUsingProjMatrixByBin(pm));
+          shared_ptr<const DiscretisedDensity<3, float>> mu_c(mu);
+          return shared_ptr<BinNormalisation>(new BinNormalisationFromAttenuationImage(mu_c, fwd));
+        };
+        Factory make_comp = [&]() {
+          shared_ptr<BinNormalisationPETFromComponents> n(new BinNormalisationPETFromComponents);
+          n->allocate(big, true, false, false);
+          DetectorEfficiencies& e = n->crystal_efficiencies();
+          std::size_t i = 0;
+          for (int r = e.get_min_index(); r <= e.get_max_index(); ++r)
+            for (int dd = e[r].get_min_index(); dd <= e[r].get_max_index(); ++dd)
+              e[r][dd] = effs[i++];
+          return shared_ptr<BinNormalisation>(n);
+        };
+        Factory make_triv = [&]() { return shared_ptr<BinNormalisation>(new TrivialBinNormalisation); };
+        auto ge = [](const shared_ptr<ProjDataInfo>& S, const shared_ptr<ProjDataInfo>& D) { return !S || (*S >= *D); };
+        auto leaf = [&](const char* tag, const shared_ptr<ProjDataInfo>& S, const shared_ptr<ProjDataInfo>& D) {
+          return std::string(tag) + (S ? " 1 " : " 0 ") + (ge(S, D) ? "1" : "0");
+        };
+        // one use: both routes; expectation 1 accept, 0 refuse, -1 none (correspondence only); `ref`: values to compare with
+        auto use = [&](const BinNormalisation& n, const std::string& expr, const shared_ptr<ProjDataInfo>& D,
+                       const shared_ptr<ExamInfo>& data_exam, int expect_rv, int expect_whole, const std::string& what,
+                       std::vector<float>* keep, const std::vector<float>* ref) {
+          for (int whole = 0; whole < 2; ++whole)
+            {
+              std::vector<float> vals;
+              const int r = try_use(n, D, data_exam, whole != 0, vals);
+              if (whole)
+                op("use2 whole " + std::string(*exam == *data_exam ? "1 " : "0 ") + expr, r == 1 ? "ok" : (r == 0 ? "err" : "mixed"));
+              else
+                op("use2 rv " + expr, r == 1 ? "ok" : (r == 0 ? "err" : "mixed"));
+              const int expect = whole ? expect_whole : expect_rv;
+              ++g_checks;
+              if (r < 0)
+                oracle_fail("undo and apply disagree about accepting the data: " + what);
+              else if (expect >= 0 && r != expect)
+                oracle_fail(what + (whole ? " (whole data) " : " (related viewgrams) ") + (r ? "was accepted" : "was refused"));
+              if (r == 1 && ref)
+                {
+                  ++g_checks;
+                  bool same = vals.size() == ref->size();
+                  for (std::size_t i = 0; same && i < vals.size(); ++i)
+                    same = close_rel(vals[i], (*ref)[i], 1e-5);
+                  if (!same)
+                    oracle_fail(what + (whole ? " (whole data)" : " (related viewgrams)")
+                                + ": result differs from that of an object set up for exactly the geometry of the data");
+                }
+              if (r == 1 && keep && !whole)
+                *keep = vals;
+            }
+        };
+        struct K
+        {
+          const char* name;
+          Factory make;
+          const char* tag;
+        } kinds[] = { { "BinNormalisationFromProjData", make_fpd, "B" },
+                      { "BinNormalisation (base class, table)", make_table, "B" },
+                      { "BinNormalisationFromAttenuationImage", make_atten, "B" },
+                      { "BinNormalisationPETFromComponents", make_comp, "B" },
+                      { "TrivialBinNormalisation", make_triv, "T" } };
+        for (auto& kd : kinds)
+          {
+            const bool triv = std::string(kd.tag) == "T";
+            const std::string nm(kd.name);
+            shared_ptr<BinNormalisation> fresh = kd.make(), on_big = kd.make(), on_small = kd.make();
+            ++g_checks;
+            bool su = false;
+            try
+              {
+                su = on_big->set_up(exam, big) == Succeeded::yes && on_small->set_up(exam, small) == Succeeded::yes;
+              }
+            catch (...)
+              {}
+            if (!su)
+              {
+                oracle_fail("set_up failed for a compatible geometry: " + nm);
+                continue;
+              }
+            shared_ptr<ProjDataInfo> none;
+            std::vector<float> ref_small;
+            use(*fresh, leaf(kd.tag, none, big), big, exam, triv ? 1 : 0, 0, nm + " that was never set up", nullptr, nullptr);
+            use(*on_small, leaf(kd.tag, small, small), small, exam, 1, 1, nm + " set up for the geometry of the data", &ref_small, nullptr);
+            use(*on_big, leaf(kd.tag, big, big), big, exam, 1, 1, nm + " set up for the geometry of the data", nullptr, nullptr);
+            use(*on_big, leaf(kd.tag, big, small), small, exam, 1, 1, nm + " set up with more segments than the data", nullptr,
+                ref_small.empty() ? nullptr : &ref_small);
+            use(*on_small, leaf(kd.tag, small, big), big, exam, triv ? 1 : 0, 0, nm + " set up with fewer segments than the data", nullptr,
+                nullptr);
+            use(*on_big, leaf(kd.tag, big, tofbig), tofbig, exam, -1, -1, nm + " set up for non-TOF data, used on TOF data", nullptr, nullptr);
+            use(*on_big, leaf(kd.tag, big, big), big, other_exam, 1, 0, nm + " used on data with another time frame (ExamInfo differs)",
+                nullptr, nullptr);
+          }
+        // chains: related viewgrams are checked by the members only, whole data by the chain itself first
+        {
+          shared_ptr<ProjDataInfo> none;
+          auto set = [&](const shared_ptr<BinNormalisation>& n, const shared_ptr<ProjDataInfo>& S) {
+            try
+              {
+                n->set_up(exam, S);
+              }
+            catch (...)
+              {}
+            return n;
+          };
+          std::vector<float> ref_small;
+          {
+            shared_ptr<BinNormalisation> ch(new ChainedBinNormalisation(make_table(), make_fpd()));
+            set(ch, small);
+            use(*ch, "C 1 1 " + leaf("B", small, small) + " " + leaf("B", small, small), small, exam, 1, 1,
+                "chain set up for the geometry of the data", &ref_small, nullptr);
+            use(*ch, "C 1 0 " + leaf("B", small, big) + " " + leaf("B", small, big), big, exam, 0, 0,
+                "chain set up with fewer segments than the data", nullptr, nullptr);
+          }
+          {
+            shared_ptr<BinNormalisation> ch(new ChainedBinNormalisation(make_table(), make_fpd()));
+            set(ch, big);
+            use(*ch, "C 1 1 " + leaf("B", big, small) + " " + leaf("B", big, small), small, exam, 1, 1,
+                "chain set up with more segments than the data", nullptr, ref_small.empty() ? nullptr : &ref_small);
+          }
+          {
+            shared_ptr<BinNormalisation> ch(new ChainedBinNormalisation(set(make_table(), big), set(make_fpd(), big)));
+            use(*ch, "C 0 1 " + leaf("B", big, big) + " " + leaf("B", big, big), big, exam, 1, 0,
+                "chain never set up whose members were set up one by one", nullptr, nullptr);
+          }
+          {
+            shared_ptr<BinNormalisation> ch(new ChainedBinNormalisation(set(make_table(), big), make_fpd()));
+            use(*ch, "C 0 1 " + leaf("B", big, big) + " " + leaf("B", none, big), big, exam, 0, 0,
+                "chain never set up with a member that was never set up", nullptr, nullptr);
+          }
+          {
+            ChainedBinNormalisation ch;
+            use(ch, "C 0 1 N N", big, exam, 1, 0, "empty chain never set up", nullptr, nullptr);
+          }
+          {
+            shared_ptr<BinNormalisation> inner(new ChainedBinNormalisation(set(make_comp(), big), shared_ptr<BinNormalisation>()));
+            shared_ptr<BinNormalisation> ch(new ChainedBinNormalisation(inner, set(make_triv(), small)));
+            use(*ch, "C 0 1 C 0 1 " + leaf("B", big, big) + " N " + leaf("T", small, big), big, exam, 1, 0,
+                "nested chain never set up whose non-null members were set up one by one", nullptr, nullptr);
+          }
+        }
+        atten_setup_case(R);
+        comp_setup_case(R);
       }
     }
 
